@@ -5,6 +5,8 @@ ROOT = os.path.dirname(os.path.dirname(os.path.abspath(__file__)))
 props = [json.loads(l) for l in open(os.path.join(ROOT, 'properties.jsonl'))]
 claimed = sorted(os.path.basename(f)[:-5] for f in glob.glob(os.path.join(ROOT, 'lib/props.d/*.json'))
                  if os.path.exists(os.path.join(ROOT, 'coq/Properties', os.path.basename(f)[:-5] + '.v')))
+ready = set(open(os.path.join(ROOT, 'lib', 'claimed.txt')).read().split())  # checks the lead has seen pass on the unchanged tree
+claimed = [c for c in claimed if c in ready]
 old = json.load(open(os.path.join(ROOT, 'MANIFEST.json')))
 m = {
  "version": 1,
